@@ -293,7 +293,9 @@ def iobuf_into_chunks(ip, st, ci):
     nlen = ip.tn_lin(crate(ci), targs[-1])
     chunk = nlen * b[3]
     total = ip.tlen(st, b[1])
-    k, d = decompose(st, total, chunk)
+    cnt = count_of(st, total, b[3])
+    k, r = decompose(st, cnt, nlen)
+    d = r * b[3]
     blocks = ("iobuf", ip.br(b[1], ZERO, k * chunk), ip.br(b[2], ZERO, k * chunk), chunk)
     tail = ("iobuf", ip.br(b[1], k * chunk, d), ip.br(b[2], k * chunk, d), b[3])
     return ("tuple", [blocks, tail])
